@@ -50,6 +50,7 @@ func init() {
 			{Name: "client-two-connections-blocked-handler", Weight: 1, Bubble: true, Run: c08ClientTwo},
 			{Name: "handler-closes-and-lingers", Weight: 1, Bubble: true, Run: c08CloseLingers},
 			{Name: "registration-while-a-handler-blocks", Weight: 1, Bubble: true, Run: c08PendingRegistration},
+			{Name: "handler-blocked-forwarding-to-another-connection", Weight: 1, Bubble: true, Run: c08Forward},
 			{Name: "sweep-schedules", Bubble: true, Run: c08Sweep, SweepN: c08SweepN, QuickSweep: true, Exhaustive: true,
 				SweepNote: "2 connections x 2 messages: every interleaving of the two connections' step sequences (deliver, deliver, release, release in both per-connection orders; 70 x 4) x every choice of which of the 4 handlers park (16): 4 480 schedules, each followed by the drain and the history oracle"},
 			{Name: "serve-yield", Weight: 3, Bubble: true, Run: func(e *Env) {
@@ -58,7 +59,7 @@ func init() {
 				newSrvWorld(e, cfg).run()
 			}},
 		},
-		MustProbes: []string{"yield-parked", "closenotify-from-task", "back-to-back-accept", "deferred-answer", "sctp-handler-parked", "answer-write-stalled", "late-connection", "other-connection-served-during-stalled-cea", "second-connection-served-while-first-handler-blocked", "connection-accepted-while-closer-lingers"},
+		MustProbes: []string{"yield-parked", "closenotify-from-task", "back-to-back-accept", "deferred-answer", "sctp-handler-parked", "answer-write-stalled", "late-connection", "other-connection-served-during-stalled-cea", "second-connection-served-while-first-handler-blocked", "connection-accepted-while-closer-lingers", "handler-stuck-in-a-write-to-another-connection"},
 	})
 	register(&Property{
 		ID: "C09", Level: "exploration",
@@ -641,5 +642,107 @@ func c08PendingRegistration(e *Env) {
 			pending = "is still waiting (for the mux lock the blocked dispatch holds)"
 		}
 		e.Fail("C08/blocked-by-other-connection/pending-registration", "a handler blocks on connection A and the application registers another handler on the mux, a call which %s; a message arriving on connection B is not dispatched until A's handler returns", pending)
+	}
+}
+
+// c08Forward: a relay. The handler of a request on connection A forwards it through the Conn of
+// connection B and gets stuck there (B's peer does not read). A's handler blocks: that is its
+// business. B's peer meanwhile sends requests: they are dispatched, one at a time and in
+// order, as on any connection whose handlers are free (the handlers look at the connection's
+// context and addresses first, as handlers do).
+func c08Forward(e *Env) {
+	t := e.T
+	e.TrustWait = false
+	lis := newSimListener(e)
+	mux := diam.NewServeMux()
+	var mu sync.Mutex
+	conns := map[string]diam.Conn{}
+	var entered []string
+	stuck := make(chan struct{}, 1)
+	mux.HandleFunc("ALL", func(c diam.Conn, m *diam.Message) {
+		_ = c.Context()
+		_, _ = c.LocalAddr(), c.RemoteAddr()
+		who := "?"
+		if len(m.AVP) > 0 {
+			who = string(m.AVP[0].Data.Serialize())
+		}
+		mu.Lock()
+		conns[who[:1]] = c
+		entered = append(entered, who)
+		to := conns["B"]
+		mu.Unlock()
+		if who == "A-forward" && to != nil {
+			fwd := diam.NewMessage(901, diam.RequestFlag, 0, 500, 500, simDict())
+			fwd.NewAVP(avpSimOctets, 0, 0, datatype.OctetString(marker(0, 0, 300, 7)))
+			fwd.WriteTo(to)
+			select {
+			case stuck <- struct{}{}:
+			default:
+			}
+		}
+	})
+	srv := &diam.Server{Handler: mux, Dict: simDict()}
+	go srv.Serve(lis)
+	a := newSimConn(e, "A", drawAddr(t, 3868), drawAddr(t, 41001))
+	b := newSimConn(e, "B", drawAddr(t, 3868), drawAddr(t, 41002))
+	lis.Connect(a)
+	lis.Connect(b)
+	req := func(tag string, hbh uint32) []byte {
+		return RefMsg{Cmd: 900, Flags: 0x80, HbH: hbh, E2E: hbh, AVPs: []RefAVP{{Code: avpSimOctets, Data: []byte(tag)}}}.Bytes()
+	}
+	defer func() {
+		for _, sc := range []*SimConn{a, b} {
+			sc.Resume()
+			sc.EndRead(io.EOF, false)
+		}
+		lis.Close()
+		e.Quiesce()
+	}()
+	b.Deliver(req("B-hello", 1))
+	e.Quiesce()
+	b.ArmWriteFault(&WriteFault{Kind: "stall", After: t.Range(0, 40)})
+	a.Deliver(req("A-forward", 2))
+	e.Quiesce()
+	if !b.Stalled() {
+		e.Harness("the forward did not reach B's transport")
+	}
+	e.Probe("handler-stuck-in-a-write-to-another-connection")
+	e.NonTrivial()
+	n := t.Range(1, 3)
+	var want []string
+	for k := 0; k < n; k++ {
+		tag := fmt.Sprintf("B-req%d", k)
+		want = append(want, tag)
+		if t.Chance(1, 2) {
+			raw := req(tag, uint32(10+k))
+			cut := t.Range(1, len(raw)-1)
+			b.Deliver(raw[:cut])
+			e.Quiesce()
+			b.Deliver(raw[cut:])
+		} else {
+			b.Deliver(req(tag, uint32(10+k)))
+		}
+		e.Act("deliver", "%s while A's handler is stuck in a write to B", tag)
+		e.Quiesce()
+	}
+	mu.Lock()
+	got := append([]string{}, entered...)
+	mu.Unlock()
+	var gotB []string
+	for _, g := range got {
+		if strings.HasPrefix(g, "B-req") {
+			gotB = append(gotB, g)
+		}
+	}
+	if strings.Join(gotB, ",") != strings.Join(want, ",") {
+		e.Fail("C08/blocked-by-other-connection/forward", "the handler of connection A is blocked (stuck in a write to connection B, whose peer does not read); B's peer sent %v, dispatched on B: %v", want, gotB)
+		return
+	}
+	b.Resume()
+	e.Quiesce()
+	select {
+	case <-stuck:
+	default:
+		e.Fail("C08/handler-stuck", "B's peer reads again and the forward from A's handler has not returned")
 	}
 }
